@@ -146,4 +146,19 @@ func init() {
 		Technique: "completion-vector (stack delta) analysis of container handlers with sibling agreement; collect-guard and stutter-freedom path analysis",
 		DesignRef: "DESIGN.md section 2 R7, R3, R2; section 3 C06",
 	})
+	register(&PropSpec{
+		ID:    "C01",
+		Level: "other",
+		Decided: "integers survive both directions of all three codecs: every non-constant integer conversion on the encoder and decoder number paths keeps the value (operand interval inside the target range on every path) or is an enumerated wire-format idiom with a stated reason; CBOR initial bytes pack only arguments 0..23 inline; UBJSON's marker selection tables respect the markers' ranges and maxNumType is a proper maximum (R5).",
+		NotDecided: "strings byte for byte, key order, nesting, option combinations, escape/unescape inversion, float text (see C07 R19 for the format call), the CBOR empty-key refusal asymmetry - all value-level.",
+		Assumptions: []string{"interval domain is non-relational; the three accepted idioms (two's-complement wire reinterpretation in ubjson, remainder extraction, marker-selected narrowing with a mechanically checked premise) are the places where a relational argument is needed"},
+		TrustedBase: baseTrusted,
+		Rules: []RuleRun{
+			{"R5", R5("json", "cborl", "ubjson")},
+			{"R21", R21},
+		},
+		LevelText: "Structural necessary condition over ~120 integer conversions: a conversion that can change a value changes it for some input. Width boundaries are exactly what the 95 fixtures never sample; intervals cover the full type range at once.",
+		Technique: "path-sensitive interval analysis on SSA (branch refinement, wrap-window tracking, widening at loop heads) over every integer conversion of the codecs; table checks for UBJSON marker selection and CBOR inline arguments",
+		DesignRef: "DESIGN.md section 2 R5; section 3 C01",
+	})
 }
